@@ -358,6 +358,16 @@ ActNoLook == \A s \in Sinks : \A k \in 1..Len(out[s]) : out[s][k].hi <= k - 1
 \* C14 (reports): no column ran out, nothing left in any channel
 Leftover == {c \in Chans : Len(buf[c]) > 0}
 RanOut == {p \in Consumers : ran[p] > 0}
+Templates == {p \in Procs : Kind[p] = "Template"}
+\* the value printed in the row of date d was computed for date d (or is a warm-up fill)
+ColAligned == \A p \in Templates : \A j \in 1..Len(out[p]) :
+                 out[p][j].tok.fill \/ out[p][j].tok.hi = out[p][j].d
+\* the first column of every strategy report is the closing price of the row's date
+CloseColumn == \A p \in Templates : \A j \in 1..Len(out[p]) :
+                 out[p][j].col = 1 => (out[p][j].tok.fs = {"Close"} /\ out[p][j].tok.hi = out[p][j].d)
+\* every date row got a value from every column, nothing is left over, everything is closed
+ColumnsBalanced == /\ RanOut = {} /\ Leftover = {} /\ AllDone
+                   /\ \A c \in Chans : closed[c] \/ Writer[c] = 0
 
 Summary ==
   [lens |-> lens,
@@ -368,7 +378,8 @@ Summary ==
    leftover |-> [c \in Leftover |-> Len(buf[c])],
    open |-> {c \in Chans : ~closed[c]},
    countOK |-> CountOK, sameLen |-> SameLen, aligned |-> Aligned, noLook |-> NoLookAhead,
-   actCount |-> ActCount, actFill |-> ActFill, actAlign |-> ActAlign, actNoLook |-> ActNoLook]
+   actCount |-> ActCount, actFill |-> ActFill, actAlign |-> ActAlign, actNoLook |-> ActNoLook,
+   colAligned |-> ColAligned, colBalanced |-> ColumnsBalanced, closeCol |-> CloseColumn]
 
 \* Evaluated as an INVARIANT (always TRUE): prints one line per distinct terminal state.
 Report == Quiescent => PrintT("TERM " \o ToJson(Summary))
